@@ -435,6 +435,30 @@ def _if_modular(lens, thorough_only=False):
     return if_modular
 
 
+@contract('C12', 'internal_flash.failed-write-aborts', [BL + ':Bootloader._internal_flash'], max_paths=4000,
+          clause='a failed flash-write aborts with an exception before anything else is sent (the abort clause of ' 'IF_CLAUSE on its own: small, so that a change which removes the abort is reported quickly instead of through the ' 'exponentially larger exploration it causes in internal_flash.modular.*)',
+          bounded='image lengths 1..4 (content symbolic), page size 1, buffer pages 1..2: the k-th flash-write command (k = 0..3) is the ' 'first that fails; flash pages, start page, override, target address: any 16-bit / 8-bit value')
+def if_failed_write_aborts(c):
+    n = c.choice('n', [1, 2, 3, 4])
+    k = c.choice('k', list(range(0, 4)))
+    oks = [i != k for i in range(n + 1)]
+    it = iter(oks)
+    bl, art, ov = modular_setup(c, n, 1, {'write_flash': lambda *_a: next(it)})
+    c.require('bp <= 2')
+    c.reset_trace()
+    c.call((bl, '_internal_flash'), art, 1, 1, ov)
+    trace = c.get('trace')
+    nw = len([e for e in trace if e[0] == 'cload.write_flash'])
+    c.let('nw', nw)
+    c.let('k', k)
+    c.let('last_is_write', len(trace) > 0 and trace[-1][0] == 'cload.write_flash')
+    c.snapshot('fits', 'len(image) <= (fp - first) * ps')
+    c.ensure('no-flash-write-after-the-failed-one', 'nw <= k + 1')
+    c.ensure('failed-write-raises', "implies(nw == k + 1, raised == 'Exception')")
+    c.ensure('nothing-sent-after-the-failed-write', 'implies(nw == k + 1, last_is_write)')
+    c.ensure('no-error-when-no-write-failed', "implies(fits and nw <= k, raised is None)")
+
+
 for _lens in ((1, 2, 3, 4, 5, 6), (7, 8), (9,), (10,), (11,), (12,)):
     _if_modular(_lens)
 for _lens in ((13,), (14,), (15,)):       # thorough tier (any length: internal_flash.inductive.*)
